@@ -917,6 +917,47 @@ class InjectorSystem(System):
             )
         ctx.mark("overwrite_after_injector_call")
         ctx.count("container:%s" % ("DataFrame" if frame else "ndarray"))
+        # the same injector object used on the OTHER container type first: the container type of the
+        # result must follow the input of the current call, not state kept from an earlier call
+        args_other = {}
+        for k, v in ev["args"].items():
+            if k in ("col", "col_1", "col_2", "target_col") and not frame:
+                v = INJ_COLS[v]
+            if k in ("class_probabilities", "alpha"):
+                v = {a: b for a, b in v}
+            args_other[k] = v
+        if "from" in ev:
+            args_other["from_index"], args_other["to_index"] = ev["from"], ev["to"]
+        other = data.copy() if frame else pd.DataFrame(data.copy(), columns=INJ_COLS)
+        held2 = Held(layout, data, INJ_COLS, INJ_MIX)
+        inj2 = self.cls()
+        rng.seed_step(ctx.seed, self.name, cfg["id"], "reuse")
+        try:
+            inj2(other, **args_other)
+            primed = True
+        except Exception:  # noqa: BLE001
+            primed = False
+        if primed:
+            args2 = {k: (dict(v) if isinstance(v, dict) else v) for k, v in args.items()}
+            try:
+                out2 = inj2(held2.obj, **args2)
+            except Exception as e:  # noqa: BLE001
+                raise Violation(
+                    "container-type",
+                    "%s raised %s: %s when the same injector object had been used on a %s before"
+                    % (desc, type(e).__name__, str(e)[:120], "ndarray" if frame else "DataFrame"),
+                    sig="container-type-after-reuse:%s" % self.name,
+                )
+            if (frame and not isinstance(out2, pd.DataFrame)) or (not frame and type(out2) is not np.ndarray):
+                raise Violation(
+                    "container-type",
+                    "%s returned a %s when the same injector object had been used on a %s before"
+                    % (desc, type(out2).__name__, "ndarray" if frame else "DataFrame"),
+                    expected=type(held2.obj).__name__,
+                    observed=type(out2).__name__,
+                    sig="container-type-after-reuse:%s" % self.name,
+                )
+            ctx.count("injector_reused_across_container_types")
         return {"outcome": "ok", "type": type(out).__name__, "shape": list(out.shape)}
 
 
@@ -1057,6 +1098,7 @@ REQUIRED = (
         "overwrite_after_test_batch",
         "overwrite_after_single_observation",
         "overwrite_after_injector_call",
+        "injector_reused_across_container_types",
         "drifted_batch_adopted_then_overwritten",
         "update_after_adopted_batch_was_overwritten",
         "dataframe_values_is_live_view_cases",
